@@ -136,6 +136,10 @@ package s1
 //@   ghost p float64
 //@   requires i.IsValid() && vcPt(p) && margin >= 0 && margin <= 100
 //@   ensures [valid] result.IsValid()
+//@   ensures [kept-plain] !i.IsInverted() && i.Lo-margin > -math.Pi && i.Hi+margin < math.Pi && i.Contains(p) ==> result.Contains(p)
+//@   ensures [kept-wrap-low] !i.IsInverted() && i.Lo-margin < -math.Pi && i.Hi+margin < math.Pi && i.Lo-margin+2*math.Pi > i.Hi+margin+1e-14 && i.Contains(p) ==> result.Contains(p)
+//@   ensures [kept-wrap-high] !i.IsInverted() && i.Lo-margin > -math.Pi && i.Hi+margin > math.Pi && i.Lo-margin > i.Hi+margin-2*math.Pi+1e-14 && i.Contains(p) ==> result.Contains(p)
+//@   ensures [kept-inverted-plain] i.IsInverted() && i.Lo-margin > i.Hi+margin+1e-14 && i.Contains(p) ==> result.Contains(p)
 //@   ensures [kept-becomes-full] i.Length()+2*margin >= 2*math.Pi && i.Contains(p) ==> result.Contains(p)
 //@   ensures [kept-nearly-full] i.Length()+2*margin > 2*math.Pi-1e-14 && i.Length()+2*margin < 2*math.Pi && i.Contains(p) ==> result.Contains(p)
 
